@@ -534,7 +534,7 @@ def gen_dat(info, rnd, profile="mixed", maxcells=24, cells=None, ext_pool=None):
             else:
                 n = rnd.choice([0, 1, 2, 3, 5, 8]) if profile != "edge" else rnd.choice([0, 0, 1])
                 if ext_pool:
-                    n = rnd.choice([90, 200, 345, 520])
+                    n = rnd.choice([90, 200, 345, 520] if max(ext_pool) < 1000 else ext_pool)      # pool values >= 1000: cell counts
                 n = min(n, max(0, maxcells // M))
             if cells is not None:
                 vals = cells(n * M)
